@@ -87,6 +87,7 @@ class Log:
 LOG = None
 WORLD = None
 PREVIOUS_RUNNER = [None]
+REJECTED_RUNNER = [None]  # a runner whose accept was refused and which was then shut down by its owner's cleanup
 
 
 # ------------------------------------------------------------------------------ failure kinds
@@ -220,7 +221,11 @@ class World:
     def __init__(self, gen_spec, gen_index):
         self.spec = gen_spec
         self.gen = gen_index
-        if gen_spec.get("reuse_runner") and PREVIOUS_RUNNER[0] is not None:
+        if gen_spec.get("use_rejected_runner") and REJECTED_RUNNER[0] is not None:
+            self.runner = REJECTED_RUNNER[0]  # the runner that was refused earlier now gets its turn
+            REJECTED_RUNNER[0] = None
+            self.rejected_runner_in_use = True
+        elif gen_spec.get("reuse_runner") and PREVIOUS_RUNNER[0] is not None:
             self.runner = PREVIOUS_RUNNER[0]  # the same runner instance runs once more
         elif gen_spec.get("mode") == "meta":
             self.runner = MetaAdapter()
@@ -310,9 +315,13 @@ def do_adopt_same(world, child_id, by):
     do_adopt(world, child_id, by, same=True)
 
 
-def do_execute(world, child_id, by):
+def do_execute(world, child_id, by, same=False):
     child = world.payloads[child_id]
-    fn = make_payload(world, child)
+    fn = world.callables.get(child_id) if same else None  # same: every caller hands in the very same callable object
+    if fn is None:
+        fn = make_payload(world, child)
+        if same:
+            fn = world.callables.setdefault(child_id, fn)
     args, kwargs = build_args(world, child_id, child)
     LOG("call", op="execute", pid=child_id, by=by, gen=world.gen)
     try:
@@ -859,6 +868,8 @@ def play(world, ops, by):
                     try:
                         other.shutdown()
                         LOG("rejected-runner-shut-down", by=by, gen=world.gen)
+                        if other is not world.runner:
+                            REJECTED_RUNNER[0] = other
                     except BaseException as err:  # noqa: B036
                         LOG("raised", op="shutdown-of-rejected-runner", by=by, gen=world.gen, exc=type(err).__name__, msg=text_of(err)[:200])
             elif kind == "adopt_stream":
@@ -896,6 +907,18 @@ def play(world, ops, by):
                 SERVICE_SPECS.pop(id(gone), None)
                 del gone
                 gc.collect()
+            elif kind == "execute_same_burst":
+                # op[2] threads call execute() with the very same callable at the same instant
+                gate = threading.Barrier(op[2])
+
+                def at_once(name, pid=op[1]):
+                    gate.wait()
+                    do_execute(world, pid, by=name, same=True)
+
+                for i in range(op[2]):
+                    t = threading.Thread(target=at_once, args=("%s/same%d" % (by, i),), daemon=True)
+                    world.helpers.append(t)
+                    t.start()
             elif kind == "shutdown_burst":
                 # op[1] threads call shutdown() at the same instant
                 barrier = threading.Barrier(op[1])
@@ -989,7 +1012,8 @@ def run_generation(gen_spec, index):
     gc.collect()
     world = WORLD = World(gen_spec, index)
     PREVIOUS_RUNNER[0] = world.runner
-    LOG("generation", gen=index, reused_runner=bool(gen_spec.get("reuse_runner")), switchinterval=sys.getswitchinterval())
+    LOG("generation", gen=index, reused_runner=bool(gen_spec.get("reuse_runner")), switchinterval=sys.getswitchinterval(),
+        rejected_runner=bool(getattr(world, "rejected_runner_in_use", False)))
     early = []
     for p in gen_spec.get("payloads", []):
         if p.get("when") == "queued":
